@@ -1,8 +1,8 @@
 SPECIFICATION SpecMC
 CONSTANT Names = {"x", "y"}
 CONSTANT NameSeq <- Seq2
-CONSTANT Shapes <- ShapesQ
-CONSTANT FlagsX <- FX3
+CONSTANT Shapes <- Shapes4
+CONSTANT FlagsX <- FX4
 CONSTANT FlagsY <- FYq
 INVARIANT RefinesD
 CHECK_DEADLOCK FALSE
